@@ -37,15 +37,25 @@ impl Ctx {
         let fin = self.tmp.join(format!("trial{}.plan.json", self.counter));
         let fout = self.tmp.join(format!("trial{}.log.json", self.counter));
         std::fs::write(&fin, serde_json::to_string(plan).ok()?).ok()?;
-        let mut child = Command::new(&self.exe)
-            .arg("exec-plan")
+        let mut cmd = Command::new(&self.exe);
+        cmd.arg("exec-plan")
             .arg("--plan")
             .arg(&fin)
             .arg("--out")
             .arg(&fout)
             .arg("--timeout")
-            .arg(timeout_s.to_string())
-            .env_clear()
+            // under the clock seam the per-step watchdog reads the warped clock: switch it off
+            .arg(if plan.clock.is_some() { "315360000".to_string() } else { timeout_s.to_string() })
+            .env_clear();
+        if let Some(w) = &plan.clock {
+            // target/release/dexsim -> target/clockwarp.so
+            if let Some(lib) = self.exe.parent().and_then(|p| p.parent()).map(|p| p.join("clockwarp.so")) {
+                cmd.env("LD_PRELOAD", lib)
+                    .env("DEXSIM_CLOCK_BASE_NS", w.base_ns.to_string())
+                    .env("DEXSIM_CLOCK_STEP_NS", w.step_ns.to_string());
+            }
+        }
+        let mut child = cmd
             .current_dir(&self.tmp)
             .stdout(std::process::Stdio::null())
             .stderr(std::process::Stdio::null())
@@ -258,6 +268,7 @@ pub fn minimise(ctx: &mut Ctx, plan: &Plan, class: &str, step: usize, earlier: O
     let mut cur = Plan {
         reqs: plan.reqs.clone(),
         steps: plan.steps[..=step].to_vec(),
+        clock: plan.clock.clone(),
     };
     cur.compact();
     let timeout = if class == "hang" { 40 } else { 30 };
